@@ -97,7 +97,20 @@ type OnlyRule struct {
 	Line    int
 }
 
+type MapRangeRule struct {
+	Props  []string
+	Func   string // function key
+	Ord    int
+	Header string
+	Kind   string // accumulate | first-match
+	Reason string
+	File   string
+	Line   int
+	used   bool
+}
+
 type Contracts struct {
+	MapRanges []*MapRangeRule
 	Onlys  []*OnlyRule
 	Funcs  map[string]*FuncContract // key: pkgpath + "::" + relname, or absolute name for externals
 	Ghosts map[string]*GhostVar
@@ -109,7 +122,7 @@ type Contracts struct {
 }
 
 var clauseRe = regexp.MustCompile(`^(requires|ensures|xensures|invariant|decreases|assert|assume|modifies|trusted|pure|inline|noinline|nullable|maypanic|nopanic|let|set|init|specialize|assign)\b(\[[A-Za-z0-9, ]*\])?\s*(.*)$`)
-var topRe = regexp.MustCompile(`^(func|ghost|spec|axiom|lemma|iface|only)\b(\[[A-Za-z0-9, ]*\])?\s*(.*)$`)
+var topRe = regexp.MustCompile(`^(func|ghost|spec|axiom|lemma|iface|only|maprange)\b(\[[A-Za-z0-9, ]*\])?\s*(.*)$`)
 
 func parseProps(s string) []string {
 	s = strings.Trim(s, "[]")
@@ -258,6 +271,21 @@ func (cs *Contracts) parseFile(fname, pkg, prefix string) {
 				}
 				sf.File = fname
 				cs.Specs[sf.Name] = sf
+			case "maprange":
+				// maprange FUNC N "header" KIND reason
+				re := regexp.MustCompile(`^(\S+)\s+(\d+)\s+"([^"]*)"\s+(\S+)\s*(.*)$`)
+				m2 := re.FindStringSubmatch(rest)
+				if m2 == nil {
+					cs.errf(fname, l.line, "maprange needs: FUNC N \"header\" KIND reason")
+					continue
+				}
+				n := 0
+				fmt.Sscanf(m2[2], "%d", &n)
+				fn := m2[1]
+				if pkg != "" && !strings.Contains(fn, "::") {
+					fn = pkg + "::" + fn
+				}
+				cs.MapRanges = append(cs.MapRanges, &MapRangeRule{Props: props, Func: fn, Ord: n, Header: m2[3], Kind: strings.TrimSuffix(m2[4], ":"), Reason: m2[5], File: fname, Line: l.line})
 			case "only":
 				// only CALLEE in F1, F2
 				i := strings.Index(rest, " in ")
